@@ -1,5 +1,5 @@
 // auto-generated: "lalrpop 0.23.1"
-// sha3: da720dc9acdfb07c6ea382e9da78ed0c4b383e114cf1342e1a7e2b7e9851a22b
+// sha3: 5d902c7ebf090843e19fbec7dd92cd7c4251b7e4bf4acd9590e8f83b28f8863c
 use crate::rt::*;
 #[allow(unused_extern_crates)]
 extern crate lalrpop_util as __lalrpop_util;
@@ -29,42 +29,34 @@ mod __parse__N0 {
     }
     const __ACTION: &[i8] = &[
         // State 0
-        4, 0,
+        0, 0, 3, 0,
         // State 1
-        4, 0,
+        0, 0, 0, 0,
         // State 2
-        0, 0,
+        0, 4, 0, 0,
         // State 3
-        -8, 6,
+        0, 0, 0, 5,
         // State 4
-        0, 0,
-        // State 5
-        -7, 0,
+        0, 0, 0, 0,
     ];
     fn __action(state: i8, integer: usize) -> i8 {
-        __ACTION[(state as usize) * 2 + integer]
+        __ACTION[(state as usize) * 4 + integer]
     }
     const __EOF_ACTION: &[i8] = &[
         // State 0
         0,
         // State 1
-        0,
+        -7,
         // State 2
-        -9,
+        0,
         // State 3
-        -8,
+        0,
         // State 4
         -3,
-        // State 5
-        -7,
     ];
     fn __goto(state: i8, nt: usize) -> i8 {
         match nt {
-            2 => 2,
-            4 => match state {
-                1 => 4,
-                _ => 1,
-            },
+            2 => 1,
             _ => 0,
         }
     }
@@ -72,6 +64,8 @@ mod __parse__N0 {
     const __TERMINAL: &[&str] = &[
         r###""t0""###,
         r###""t1""###,
+        r###""t2""###,
+        r###""t3""###,
     ];
     fn __expected_tokens(__state: i8) -> alloc::vec::Vec<alloc::string::String> {
         __TERMINAL.iter().enumerate().filter_map(|(index, terminal)| {
@@ -138,7 +132,7 @@ mod __parse__N0 {
 
         #[inline]
         fn error_action(&self, state: i8) -> i8 {
-            __action(state, 2 - 1)
+            __action(state, 4 - 1)
         }
 
         #[inline]
@@ -206,6 +200,8 @@ mod __parse__N0 {
         match __token {
             Tok('a', _, _, _) if true => Some(0),
             Tok('b', _, _, _) if true => Some(1),
+            Tok('c', _, _, _) if true => Some(2),
+            Tok('d', _, _, _) if true => Some(3),
             _ => None,
         }
     }
@@ -217,7 +213,7 @@ mod __parse__N0 {
     ) -> __Symbol<>
     {
         #[allow(clippy::manual_range_patterns)]match __token_index {
-            0 | 1 => __Symbol::Variant0(__token),
+            0 | 1 | 2 | 3 => __Symbol::Variant0(__token),
             _ => unreachable!(),
         }
     }
@@ -242,7 +238,7 @@ mod __parse__N0 {
             }
             2 => {
                 __state_machine::SimulatedReduce::Reduce {
-                    states_to_pop: 2,
+                    states_to_pop: 3,
                     nonterminal_produced: 2,
                 }
             }
@@ -254,7 +250,7 @@ mod __parse__N0 {
             }
             4 => {
                 __state_machine::SimulatedReduce::Reduce {
-                    states_to_pop: 1,
+                    states_to_pop: 3,
                     nonterminal_produced: 3,
                 }
             }
@@ -264,19 +260,7 @@ mod __parse__N0 {
                     nonterminal_produced: 3,
                 }
             }
-            6 => {
-                __state_machine::SimulatedReduce::Reduce {
-                    states_to_pop: 2,
-                    nonterminal_produced: 4,
-                }
-            }
-            7 => {
-                __state_machine::SimulatedReduce::Reduce {
-                    states_to_pop: 1,
-                    nonterminal_produced: 4,
-                }
-            }
-            8 => __state_machine::SimulatedReduce::Accept,
+            6 => __state_machine::SimulatedReduce::Accept,
             _ => panic!("invalid reduction index {__reduce_index}")
         }
     }
@@ -372,12 +356,6 @@ mod __parse__N0 {
                 __reduce5(__lookahead_start, __symbols, core::marker::PhantomData::<()>)
             }
             6 => {
-                __reduce6(__lookahead_start, __symbols, core::marker::PhantomData::<()>)
-            }
-            7 => {
-                __reduce7(__lookahead_start, __symbols, core::marker::PhantomData::<()>)
-            }
-            8 => {
                 // __N0 = N0 => ActionFn(0);
                 let __sym0 = __pop_Variant2(__symbols);
                 let __start = __sym0.0.clone();
@@ -435,10 +413,10 @@ mod __parse__N0 {
         _: core::marker::PhantomData<()>,
     ) -> (usize, usize)
     {
-        // @L =  => ActionFn(8);
+        // @L =  => ActionFn(6);
         let __start = __lookahead_start.cloned().or_else(|| __symbols.last().map(|s| s.2.clone())).unwrap_or_default();
         let __end = __start.clone();
-        let __nt = super::__action8::<>(&__start, &__end);
+        let __nt = super::__action6::<>(&__start, &__end);
         __symbols.push((__start, __Symbol::Variant1(__nt), __end));
         (0, 0)
     }
@@ -449,10 +427,10 @@ mod __parse__N0 {
         _: core::marker::PhantomData<()>,
     ) -> (usize, usize)
     {
-        // @R =  => ActionFn(7);
+        // @R =  => ActionFn(5);
         let __start = __lookahead_start.cloned().or_else(|| __symbols.last().map(|s| s.2.clone())).unwrap_or_default();
         let __end = __start.clone();
-        let __nt = super::__action7::<>(&__start, &__end);
+        let __nt = super::__action5::<>(&__start, &__end);
         __symbols.push((__start, __Symbol::Variant1(__nt), __end));
         (0, 1)
     }
@@ -463,15 +441,16 @@ mod __parse__N0 {
         _: core::marker::PhantomData<()>,
     ) -> (usize, usize)
     {
-        // N0 = N2, N2 => ActionFn(15);
-        assert!(__symbols.len() >= 2);
-        let __sym1 = __pop_Variant2(__symbols);
-        let __sym0 = __pop_Variant2(__symbols);
+        // N0 = "t2", "t1", "t3" => ActionFn(11);
+        assert!(__symbols.len() >= 3);
+        let __sym2 = __pop_Variant0(__symbols);
+        let __sym1 = __pop_Variant0(__symbols);
+        let __sym0 = __pop_Variant0(__symbols);
         let __start = __sym0.0.clone();
-        let __end = __sym1.2.clone();
-        let __nt = super::__action15::<>(__sym0, __sym1);
+        let __end = __sym2.2.clone();
+        let __nt = super::__action11::<>(__sym0, __sym1, __sym2);
         __symbols.push((__start, __Symbol::Variant2(__nt), __end));
-        (2, 2)
+        (3, 2)
     }
     fn __reduce3<
     >(
@@ -480,10 +459,10 @@ mod __parse__N0 {
         _: core::marker::PhantomData<()>,
     ) -> (usize, usize)
     {
-        // N1 =  => ActionFn(16);
+        // N1 =  => ActionFn(12);
         let __start = __lookahead_start.cloned().or_else(|| __symbols.last().map(|s| s.2.clone())).unwrap_or_default();
         let __end = __start.clone();
-        let __nt = super::__action16::<>(&__start, &__end);
+        let __nt = super::__action12::<>(&__start, &__end);
         __symbols.push((__start, __Symbol::Variant2(__nt), __end));
         (0, 3)
     }
@@ -494,13 +473,16 @@ mod __parse__N0 {
         _: core::marker::PhantomData<()>,
     ) -> (usize, usize)
     {
-        // N1 = N1 => ActionFn(17);
-        let __sym0 = __pop_Variant2(__symbols);
+        // N1 = "t0", "t3", N0 => ActionFn(13);
+        assert!(__symbols.len() >= 3);
+        let __sym2 = __pop_Variant2(__symbols);
+        let __sym1 = __pop_Variant0(__symbols);
+        let __sym0 = __pop_Variant0(__symbols);
         let __start = __sym0.0.clone();
-        let __end = __sym0.2.clone();
-        let __nt = super::__action17::<>(__sym0);
+        let __end = __sym2.2.clone();
+        let __nt = super::__action13::<>(__sym0, __sym1, __sym2);
         __symbols.push((__start, __Symbol::Variant2(__nt), __end));
-        (1, 3)
+        (3, 3)
     }
     fn __reduce5<
     >(
@@ -509,45 +491,13 @@ mod __parse__N0 {
         _: core::marker::PhantomData<()>,
     ) -> (usize, usize)
     {
-        // N1 = "t1" => ActionFn(18);
+        // N1 = "t0" => ActionFn(14);
         let __sym0 = __pop_Variant0(__symbols);
         let __start = __sym0.0.clone();
         let __end = __sym0.2.clone();
-        let __nt = super::__action18::<>(__sym0);
+        let __nt = super::__action14::<>(__sym0);
         __symbols.push((__start, __Symbol::Variant2(__nt), __end));
         (1, 3)
-    }
-    fn __reduce6<
-    >(
-        __lookahead_start: Option<&i64>,
-        __symbols: &mut alloc::vec::Vec<(i64,__Symbol<>,i64)>,
-        _: core::marker::PhantomData<()>,
-    ) -> (usize, usize)
-    {
-        // N2 = "t0", "t1" => ActionFn(19);
-        assert!(__symbols.len() >= 2);
-        let __sym1 = __pop_Variant0(__symbols);
-        let __sym0 = __pop_Variant0(__symbols);
-        let __start = __sym0.0.clone();
-        let __end = __sym1.2.clone();
-        let __nt = super::__action19::<>(__sym0, __sym1);
-        __symbols.push((__start, __Symbol::Variant2(__nt), __end));
-        (2, 4)
-    }
-    fn __reduce7<
-    >(
-        __lookahead_start: Option<&i64>,
-        __symbols: &mut alloc::vec::Vec<(i64,__Symbol<>,i64)>,
-        _: core::marker::PhantomData<()>,
-    ) -> (usize, usize)
-    {
-        // N2 = "t0" => ActionFn(20);
-        let __sym0 = __pop_Variant0(__symbols);
-        let __start = __sym0.0.clone();
-        let __end = __sym0.2.clone();
-        let __nt = super::__action20::<>(__sym0);
-        __symbols.push((__start, __Symbol::Variant2(__nt), __end));
-        (1, 4)
     }
 }
 #[allow(unused_imports)]
@@ -566,14 +516,13 @@ fn __action0<
 fn __action1<
 >(
     (_, l, _): (i64, i64, i64),
-    (_, pL0, _): (i64, i64, i64),
-    (_, c0, _): (i64, Tree, i64),
-    (_, pL1, _): (i64, i64, i64),
-    (_, c1, _): (i64, Tree, i64),
+    (_, c0, _): (i64, Tok, i64),
+    (_, c1, _): (i64, Tok, i64),
+    (_, c2, _): (i64, Tok, i64),
     (_, r, _): (i64, i64, i64),
 ) -> Tree
 {
-    { probe("N0#0", 0, 'L', pL0); probe("N0#0", 1, 'L', pL1); node("N0#0", l, r, vec![Tree::from(c0), Tree::from(c1)]) }
+    node("N0#0", l, r, vec![Tree::from(c0), Tree::from(c1), Tree::from(c2)])
 }
 
 #[allow(clippy::too_many_arguments, clippy::needless_lifetimes, clippy::just_underscores_and_digits, clippy::extra_unused_type_parameters)]
@@ -590,12 +539,14 @@ fn __action2<
 fn __action3<
 >(
     (_, l, _): (i64, i64, i64),
-    (_, c0, _): (i64, Tree, i64),
-    (_, pR1, _): (i64, i64, i64),
+    (_, pL0, _): (i64, i64, i64),
+    (_, c0, _): (i64, Tok, i64),
+    (_, c1, _): (i64, Tok, i64),
+    (_, c2, _): (i64, Tree, i64),
     (_, r, _): (i64, i64, i64),
 ) -> Tree
 {
-    { probe("N1#1", 1, 'R', pR1); node("N1#1", l, r, vec![Tree::from(c0)]) }
+    { probe("N1#1", 0, 'L', pL0); node("N1#1", l, r, vec![Tree::from(c0), Tree::from(c1), Tree::from(c2)]) }
 }
 
 #[allow(clippy::too_many_arguments, clippy::needless_lifetimes, clippy::just_underscores_and_digits, clippy::extra_unused_type_parameters)]
@@ -609,35 +560,8 @@ fn __action4<
     node("N1#2", l, r, vec![Tree::from(c0)])
 }
 
-#[allow(clippy::too_many_arguments, clippy::needless_lifetimes, clippy::just_underscores_and_digits, clippy::extra_unused_type_parameters)]
-fn __action5<
->(
-    (_, l, _): (i64, i64, i64),
-    (_, pR0, _): (i64, i64, i64),
-    (_, c0, _): (i64, Tok, i64),
-    (_, pR1, _): (i64, i64, i64),
-    (_, c1, _): (i64, Tok, i64),
-    (_, r, _): (i64, i64, i64),
-) -> Tree
-{
-    { probe("N2#0", 0, 'R', pR0); probe("N2#0", 1, 'R', pR1); node("N2#0", l, r, vec![Tree::from(c0), Tree::from(c1)]) }
-}
-
-#[allow(clippy::too_many_arguments, clippy::needless_lifetimes, clippy::just_underscores_and_digits, clippy::extra_unused_type_parameters)]
-fn __action6<
->(
-    (_, l, _): (i64, i64, i64),
-    (_, pR0, _): (i64, i64, i64),
-    (_, c0, _): (i64, Tok, i64),
-    (_, pR1, _): (i64, i64, i64),
-    (_, r, _): (i64, i64, i64),
-) -> Tree
-{
-    { probe("N2#1", 0, 'R', pR0); probe("N2#1", 1, 'R', pR1); node("N2#1", l, r, vec![Tree::from(c0)]) }
-}
-
 #[allow(clippy::needless_lifetimes, clippy::clone_on_copy)]
-fn __action7<
+fn __action5<
 >(
     __lookbehind: &i64,
     __lookahead: &i64,
@@ -647,7 +571,7 @@ fn __action7<
 }
 
 #[allow(clippy::needless_lifetimes, clippy::clone_on_copy)]
-fn __action8<
+fn __action6<
 >(
     __lookbehind: &i64,
     __lookahead: &i64,
@@ -658,54 +582,40 @@ fn __action8<
 
 #[allow(clippy::too_many_arguments, clippy::needless_lifetimes,
     clippy::just_underscores_and_digits, clippy::clone_on_copy, clippy::unit_arg)]
-fn __action9<
+fn __action7<
 >(
-    __0: (i64, Tree, i64),
-    __1: (i64, Tree, i64),
-    __2: (i64, i64, i64),
+    __0: (i64, Tok, i64),
+    __1: (i64, Tok, i64),
+    __2: (i64, Tok, i64),
+    __3: (i64, i64, i64),
 ) -> Tree
 {
     let __start0 = __0.0.clone();
     let __end0 = __0.0.clone();
-    let __start1 = __0.0.clone();
-    let __end1 = __0.0.clone();
-    let __start2 = __0.2.clone();
-    let __end2 = __1.0.clone();
-    let __temp0 = __action8(
+    let __temp0 = __action6(
         &__start0,
         &__end0,
     );
     let __temp0 = (__start0, __temp0, __end0);
-    let __temp1 = __action8(
-        &__start1,
-        &__end1,
-    );
-    let __temp1 = (__start1, __temp1, __end1);
-    let __temp2 = __action8(
-        &__start2,
-        &__end2,
-    );
-    let __temp2 = (__start2, __temp2, __end2);
     __action1(
         __temp0,
-        __temp1,
         __0,
-        __temp2,
         __1,
         __2,
+        __3,
     )
 }
 
 #[allow(clippy::too_many_arguments, clippy::needless_lifetimes,
     clippy::just_underscores_and_digits, clippy::clone_on_copy, clippy::unit_arg)]
-fn __action10<
+fn __action8<
 >(
     __0: (i64, i64, i64),
 ) -> Tree
 {
     let __start0 = __0.0.clone();
     let __end0 = __0.0.clone();
-    let __temp0 = __action8(
+    let __temp0 = __action6(
         &__start0,
         &__end0,
     );
@@ -718,31 +628,41 @@ fn __action10<
 
 #[allow(clippy::too_many_arguments, clippy::needless_lifetimes,
     clippy::just_underscores_and_digits, clippy::clone_on_copy, clippy::unit_arg)]
-fn __action11<
+fn __action9<
 >(
-    __0: (i64, Tree, i64),
-    __1: (i64, i64, i64),
-    __2: (i64, i64, i64),
+    __0: (i64, Tok, i64),
+    __1: (i64, Tok, i64),
+    __2: (i64, Tree, i64),
+    __3: (i64, i64, i64),
 ) -> Tree
 {
     let __start0 = __0.0.clone();
     let __end0 = __0.0.clone();
-    let __temp0 = __action8(
+    let __start1 = __0.0.clone();
+    let __end1 = __0.0.clone();
+    let __temp0 = __action6(
         &__start0,
         &__end0,
     );
     let __temp0 = (__start0, __temp0, __end0);
+    let __temp1 = __action6(
+        &__start1,
+        &__end1,
+    );
+    let __temp1 = (__start1, __temp1, __end1);
     __action3(
         __temp0,
+        __temp1,
         __0,
         __1,
         __2,
+        __3,
     )
 }
 
 #[allow(clippy::too_many_arguments, clippy::needless_lifetimes,
     clippy::just_underscores_and_digits, clippy::clone_on_copy, clippy::unit_arg)]
-fn __action12<
+fn __action10<
 >(
     __0: (i64, Tok, i64),
     __1: (i64, i64, i64),
@@ -750,7 +670,7 @@ fn __action12<
 {
     let __start0 = __0.0.clone();
     let __end0 = __0.0.clone();
-    let __temp0 = __action8(
+    let __temp0 = __action6(
         &__start0,
         &__end0,
     );
@@ -764,83 +684,31 @@ fn __action12<
 
 #[allow(clippy::too_many_arguments, clippy::needless_lifetimes,
     clippy::just_underscores_and_digits, clippy::clone_on_copy, clippy::unit_arg)]
-fn __action13<
+fn __action11<
 >(
-    __0: (i64, i64, i64),
+    __0: (i64, Tok, i64),
     __1: (i64, Tok, i64),
-    __2: (i64, i64, i64),
-    __3: (i64, Tok, i64),
-    __4: (i64, i64, i64),
+    __2: (i64, Tok, i64),
 ) -> Tree
 {
-    let __start0 = __0.0.clone();
-    let __end0 = __0.0.clone();
-    let __temp0 = __action8(
+    let __start0 = __2.2.clone();
+    let __end0 = __2.2.clone();
+    let __temp0 = __action5(
         &__start0,
         &__end0,
     );
     let __temp0 = (__start0, __temp0, __end0);
-    __action5(
-        __temp0,
+    __action7(
         __0,
         __1,
         __2,
-        __3,
-        __4,
-    )
-}
-
-#[allow(clippy::too_many_arguments, clippy::needless_lifetimes,
-    clippy::just_underscores_and_digits, clippy::clone_on_copy, clippy::unit_arg)]
-fn __action14<
->(
-    __0: (i64, i64, i64),
-    __1: (i64, Tok, i64),
-    __2: (i64, i64, i64),
-    __3: (i64, i64, i64),
-) -> Tree
-{
-    let __start0 = __0.0.clone();
-    let __end0 = __0.0.clone();
-    let __temp0 = __action8(
-        &__start0,
-        &__end0,
-    );
-    let __temp0 = (__start0, __temp0, __end0);
-    __action6(
-        __temp0,
-        __0,
-        __1,
-        __2,
-        __3,
-    )
-}
-
-#[allow(clippy::too_many_arguments, clippy::needless_lifetimes,
-    clippy::just_underscores_and_digits, clippy::clone_on_copy, clippy::unit_arg)]
-fn __action15<
->(
-    __0: (i64, Tree, i64),
-    __1: (i64, Tree, i64),
-) -> Tree
-{
-    let __start0 = __1.2.clone();
-    let __end0 = __1.2.clone();
-    let __temp0 = __action7(
-        &__start0,
-        &__end0,
-    );
-    let __temp0 = (__start0, __temp0, __end0);
-    __action9(
-        __0,
-        __1,
         __temp0,
     )
 }
 
 #[allow(clippy::too_many_arguments, clippy::needless_lifetimes,
     clippy::just_underscores_and_digits, clippy::clone_on_copy, clippy::unit_arg)]
-fn __action16<
+fn __action12<
 >(
     __lookbehind: &i64,
     __lookahead: &i64,
@@ -848,135 +716,57 @@ fn __action16<
 {
     let __start0 = __lookbehind.clone();
     let __end0 = __lookahead.clone();
-    let __temp0 = __action7(
+    let __temp0 = __action5(
+        &__start0,
+        &__end0,
+    );
+    let __temp0 = (__start0, __temp0, __end0);
+    __action8(
+        __temp0,
+    )
+}
+
+#[allow(clippy::too_many_arguments, clippy::needless_lifetimes,
+    clippy::just_underscores_and_digits, clippy::clone_on_copy, clippy::unit_arg)]
+fn __action13<
+>(
+    __0: (i64, Tok, i64),
+    __1: (i64, Tok, i64),
+    __2: (i64, Tree, i64),
+) -> Tree
+{
+    let __start0 = __2.2.clone();
+    let __end0 = __2.2.clone();
+    let __temp0 = __action5(
+        &__start0,
+        &__end0,
+    );
+    let __temp0 = (__start0, __temp0, __end0);
+    __action9(
+        __0,
+        __1,
+        __2,
+        __temp0,
+    )
+}
+
+#[allow(clippy::too_many_arguments, clippy::needless_lifetimes,
+    clippy::just_underscores_and_digits, clippy::clone_on_copy, clippy::unit_arg)]
+fn __action14<
+>(
+    __0: (i64, Tok, i64),
+) -> Tree
+{
+    let __start0 = __0.2.clone();
+    let __end0 = __0.2.clone();
+    let __temp0 = __action5(
         &__start0,
         &__end0,
     );
     let __temp0 = (__start0, __temp0, __end0);
     __action10(
-        __temp0,
-    )
-}
-
-#[allow(clippy::too_many_arguments, clippy::needless_lifetimes,
-    clippy::just_underscores_and_digits, clippy::clone_on_copy, clippy::unit_arg)]
-fn __action17<
->(
-    __0: (i64, Tree, i64),
-) -> Tree
-{
-    let __start0 = __0.2.clone();
-    let __end0 = __0.2.clone();
-    let __start1 = __0.2.clone();
-    let __end1 = __0.2.clone();
-    let __temp0 = __action7(
-        &__start0,
-        &__end0,
-    );
-    let __temp0 = (__start0, __temp0, __end0);
-    let __temp1 = __action7(
-        &__start1,
-        &__end1,
-    );
-    let __temp1 = (__start1, __temp1, __end1);
-    __action11(
         __0,
         __temp0,
-        __temp1,
-    )
-}
-
-#[allow(clippy::too_many_arguments, clippy::needless_lifetimes,
-    clippy::just_underscores_and_digits, clippy::clone_on_copy, clippy::unit_arg)]
-fn __action18<
->(
-    __0: (i64, Tok, i64),
-) -> Tree
-{
-    let __start0 = __0.2.clone();
-    let __end0 = __0.2.clone();
-    let __temp0 = __action7(
-        &__start0,
-        &__end0,
-    );
-    let __temp0 = (__start0, __temp0, __end0);
-    __action12(
-        __0,
-        __temp0,
-    )
-}
-
-#[allow(clippy::too_many_arguments, clippy::needless_lifetimes,
-    clippy::just_underscores_and_digits, clippy::clone_on_copy, clippy::unit_arg)]
-fn __action19<
->(
-    __0: (i64, Tok, i64),
-    __1: (i64, Tok, i64),
-) -> Tree
-{
-    let __start0 = __0.0.clone();
-    let __end0 = __0.0.clone();
-    let __start1 = __0.2.clone();
-    let __end1 = __1.0.clone();
-    let __start2 = __1.2.clone();
-    let __end2 = __1.2.clone();
-    let __temp0 = __action7(
-        &__start0,
-        &__end0,
-    );
-    let __temp0 = (__start0, __temp0, __end0);
-    let __temp1 = __action7(
-        &__start1,
-        &__end1,
-    );
-    let __temp1 = (__start1, __temp1, __end1);
-    let __temp2 = __action7(
-        &__start2,
-        &__end2,
-    );
-    let __temp2 = (__start2, __temp2, __end2);
-    __action13(
-        __temp0,
-        __0,
-        __temp1,
-        __1,
-        __temp2,
-    )
-}
-
-#[allow(clippy::too_many_arguments, clippy::needless_lifetimes,
-    clippy::just_underscores_and_digits, clippy::clone_on_copy, clippy::unit_arg)]
-fn __action20<
->(
-    __0: (i64, Tok, i64),
-) -> Tree
-{
-    let __start0 = __0.0.clone();
-    let __end0 = __0.0.clone();
-    let __start1 = __0.2.clone();
-    let __end1 = __0.2.clone();
-    let __start2 = __0.2.clone();
-    let __end2 = __0.2.clone();
-    let __temp0 = __action7(
-        &__start0,
-        &__end0,
-    );
-    let __temp0 = (__start0, __temp0, __end0);
-    let __temp1 = __action7(
-        &__start1,
-        &__end1,
-    );
-    let __temp1 = (__start1, __temp1, __end1);
-    let __temp2 = __action7(
-        &__start2,
-        &__end2,
-    );
-    let __temp2 = (__start2, __temp2, __end2);
-    __action14(
-        __temp0,
-        __0,
-        __temp1,
-        __temp2,
     )
 }
 
